@@ -3,6 +3,8 @@ CONSTANTS
   MaxTraits = 4
   MaxTAttrs = 1
   MaxMembers = 2
+  MaxVFields = 0
+  VFMenu = {}
   MaxMAttrs = 1
   DTs = {"struct", "enum"}
   Shapes = {"named", "unit"}
